@@ -12,7 +12,10 @@ use crate::plugins::manager::PluginManager;
 use crate::plugins::plugin::PluginLoadResult;
 #[cfg(feature = "plugins")]
 use std::process::exit;
+#[cfg(not(humphrey_verif))]
 use std::thread::spawn;
+#[cfg(humphrey_verif)]
+use humsim::thread::spawn;
 
 use crate::cache::Cache;
 use crate::config::{BlacklistMode, Config, ConfigSource, HostConfig, RouteType};
@@ -22,9 +25,18 @@ use crate::r#static::{directory_handler, file_handler, redirect_handler};
 
 use std::error::Error;
 use std::io::{Read, Write};
+#[cfg(not(humphrey_verif))]
 use std::net::TcpStream;
+#[cfg(humphrey_verif)]
+use humsim::net::TcpStream;
+#[cfg(not(humphrey_verif))]
 use std::sync::mpsc::channel;
+#[cfg(humphrey_verif)]
+use humsim::sync::mpsc::channel;
+#[cfg(not(humphrey_verif))]
 use std::sync::{Arc, RwLock};
+#[cfg(humphrey_verif)]
+use humsim::sync::{Arc, RwLock};
 
 /// Represents the application state.
 /// Includes the target directory, cache state, and the logger.
